@@ -14,6 +14,7 @@ import GooseVerif.Props.C01Core
 import GooseVerif.Props.C01Heap
 import GooseVerif.Props.C02Tuple
 import GooseVerif.Props.C02Conv
+import GooseVerif.Props.C02Global
 import GooseVerif.Gen.Guards
 import GooseVerif.Expected.Guards
 
